@@ -52,6 +52,7 @@ type Case struct {
 	H     float64 `json:"h"`
 	Draws []Draw  `json:"draws"`
 	EPS   bool    `json:"eps"`
+	CS    int     `json:"coord_system"` // 0-3: CartesianI-IV
 }
 
 // opaque colours first; from index nOpaque on the colours have alpha
@@ -138,6 +139,9 @@ func genCase(t *rapid.T) Case {
 		c.Draws = append(c.Draws, genDraw(t, c.W, c.H))
 	}
 	c.EPS = rapid.Bool().Draw(t, "eps")
+	if rapid.IntRange(0, 2).Draw(t, "flipped") == 0 {
+		c.CS = rapid.IntRange(1, 3).Draw(t, "cs")
+	}
 	return c
 }
 
@@ -157,6 +161,19 @@ func view(v []float64) canvas.Matrix {
 		return canvas.Identity.Shear(v[1], 0)
 	}
 	return canvas.Identity
+}
+
+// csMat is the view of the coordinate system: the origin in the corresponding corner, axes pointing into the canvas.
+func csMat(c Case) oracle.Mat {
+	switch c.CS {
+	case 1:
+		return oracle.Mat{-1, 0, c.W, 0, 1, 0}
+	case 2:
+		return oracle.Mat{-1, 0, c.W, 0, -1, c.H}
+	case 3:
+		return oracle.Mat{1, 0, 0, 0, -1, c.H}
+	}
+	return oracle.Identity()
 }
 
 func similarity(v []float64) bool {
@@ -282,6 +299,7 @@ func mkJoin(d Draw) canvas.Joiner {
 func buildCanvas(c Case) *canvas.Canvas {
 	cv := canvas.New(c.W, c.H)
 	ctx := canvas.NewContext(cv)
+	ctx.SetCoordSystem([]canvas.CoordSystem{canvas.CartesianI, canvas.CartesianII, canvas.CartesianIII, canvas.CartesianIV}[c.CS])
 	for _, d := range c.Draws {
 		ctx.SetView(view(d.View))
 		if d.Kind == "image" {
@@ -400,7 +418,8 @@ func toCanvas(doc *dl.Doc, c Case, verified map[int]int) (*canvas.Canvas, error)
 				st.Dashes = append(st.Dashes, x*d.Width/strokeWidth(d))
 			}
 			st.DashOffset = d.DashOff * d.Width / strokeWidth(d)
-			cv.RenderPath(mkPath(d), st, view(d.View).Translate(d.At[0], d.At[1]))
+			cm := csMat(c)
+			cv.RenderPath(mkPath(d), st, canvas.Matrix{{cm[0], cm[1], cm[2]}, {cm[3], cm[4], cm[5]}}.Mul(view(d.View)).Translate(d.At[0], d.At[1]))
 			continue
 		}
 		if st := it.Stroke; st != nil {
@@ -544,6 +563,7 @@ func checkCase(c Case, r *vf.R) error {
 		}
 	}
 	r.ClassIf(fallback, "outline-fallback")
+	r.ClassIf(c.CS != 0, "flipped-coordinate-system")
 	r.ClassIf(hasImage, "image")
 	r.ClassIf(dashed, "dashed")
 	r.ClassIf(!opaque, "alpha")
